@@ -373,3 +373,538 @@ Proof.
         apply Nat.leb_le in C1. apply Nat.ltb_lt in C2.
         rewrite (midx_None _ _ (a - off) M) by lia. reflexivity.
 Qed.
+
+(* ---------- positional fill ---------- *)
+Lemma nth_repeat_None : forall V m a, nth a (repeat (@None V) m) None = None.
+Proof. intros V m; induction m; destruct a; simpl; auto. Qed.
+
+Lemma nth_fill_pos : forall V (pos : list V) n k a,
+  nth a (fill_pos n k pos) None = if a <? Nat.min k (length pos) then nth_error pos a else None.
+Proof.
+  unfold fill_pos. intros V pos; induction pos as [|x r IH]; intros n k a.
+  - rewrite firstn_nil. simpl. rewrite Nat.min_0_r. simpl. apply nth_repeat_None.
+  - destruct k; simpl; [apply nth_repeat_None|]. destruct a; simpl; [reflexivity|].
+    replace (n - S k) with ((n - 1) - k) by lia. apply IH.
+Qed.
+
+Lemma fill_pos_length : forall V (pos : list V) n k, k <= length pos -> k <= n -> length (fill_pos n k pos) = n.
+Proof. intros. unfold fill_pos. rewrite app_length, map_length, firstn_length, repeat_length. lia. Qed.
+
+Lemma nth_error_None_ge : forall A (l : list A) a, a < length l -> nth_error l a <> None.
+Proof. intros A l a L. apply nth_error_Some. exact L. Qed.
+
+(* ---------- signature bookkeeping ---------- *)
+From Coq Require Import Permutation.
+
+Definition Pn (s : sig) := map p_name (s_posonly s).
+Definition Qn (s : sig) := map p_name (s_poskw s).
+Definition Kn (s : sig) := map p_name (s_kwonly s).
+Definition Ksn (s : sig) := map p_name (kw_only_args s).
+
+Lemma filter_partition_perm : forall A (f : A -> bool) l,
+  Permutation (filter (fun x => negb (f x)) l ++ filter f l) l.
+Proof.
+  intros A f l; induction l as [|a l IH]; simpl; [constructor|].
+  destruct (f a); simpl.
+  - apply Permutation_sym, Permutation_cons_app, Permutation_sym, IH.
+  - constructor. exact IH.
+Qed.
+
+Lemma kw_perm : forall s, Permutation (kw_only_args s) (s_kwonly s).
+Proof. intros s. apply filter_partition_perm. Qed.
+
+Lemma Ksn_perm : forall s, Permutation (Ksn s) (Kn s).
+Proof. intros s. apply Permutation_map, kw_perm. Qed.
+
+Lemma argnames_eq : forall s, argnames s = Qn s ++ Ksn s.
+Proof. intros s. unfold argnames, Qn, Ksn. apply map_app. Qed.
+
+Lemma allnames_eq : forall s, map p_name (all_args s) = Pn s ++ Qn s ++ Ksn s.
+Proof. intros s. unfold all_args, positional_args, Pn, Qn, Ksn. rewrite !map_app, app_assoc. reflexivity. Qed.
+
+Lemma declnames_eq : forall s, map p_name (declared s) = Pn s ++ Qn s ++ Kn s.
+Proof. intros s. unfold declared, Pn, Qn, Kn. rewrite !map_app. reflexivity. Qed.
+
+Lemma pnames_eq : forall s, skipn (npo s) (map p_name (declared s)) = Qn s ++ Kn s.
+Proof.
+  intros s. rewrite declnames_eq. unfold npo, Pn.
+  rewrite skipn_app, map_length, Nat.sub_diag, skipn_all2 by (rewrite map_length; lia). reflexivity.
+Qed.
+
+Lemma midx_app : forall k A B,
+  midx k (A ++ B) = match midx k A with Some i => Some i | None => option_map (Nat.add (length A)) (midx k B) end.
+Proof.
+  intros k A B. unfold midx. induction A as [|a A IH]; simpl.
+  - destruct (find_idx (key_eq k) B); reflexivity.
+  - destruct (key_eq k a); [reflexivity|]. rewrite IH.
+    destruct (find_idx (key_eq k) A); simpl; [reflexivity|].
+    destruct (find_idx (key_eq k) B); reflexivity.
+Qed.
+
+Lemma kw_dup_app : forall k A B B' first, first <= length A ->
+  kw_dup (A ++ B) first k = kw_dup (A ++ B') first k.
+Proof.
+  intros k A B B' first L. unfold kw_dup. rewrite !midx_app.
+  destruct (midx k A); [reflexivity|].
+  assert (X : forall n, negb (first <=? length A + n) = false)
+    by (intros n; apply negb_false_iff, Nat.leb_le; lia).
+  destruct (midx k B), (midx k B'); simpl; rewrite ?X; reflexivity.
+Qed.
+
+Lemma midx_perm_None : forall k B B', Permutation B B' -> midx k B = None -> midx k B' = None.
+Proof.
+  intros k B B' P H. destruct (midx k B') as [j|] eqn:E; [|reflexivity].
+  destruct (midx_Some _ _ _ E) as [L Q].
+  assert (I : In (nth j B' 0) B) by (apply (Permutation_in _ (Permutation_sym P)), nth_In; exact L).
+  destruct (In_nth _ _ 0 I) as [i [Li Ni]]. pose proof (midx_None _ _ i H Li) as Z. rewrite Ni in Z. congruence.
+Qed.
+
+Lemma kw_unknown_perm : forall k A B B', Permutation B B' ->
+  kw_unknown (A ++ B) k = kw_unknown (A ++ B') k.
+Proof.
+  intros k A B B' P. unfold kw_unknown. rewrite !midx_app. destruct (midx k A); [reflexivity|].
+  destruct (midx k B) eqn:E1, (midx k B') eqn:E2; simpl; try reflexivity.
+  - rewrite (midx_perm_None _ _ _ (Permutation_sym P) E2) in E1. discriminate.
+  - rewrite (midx_perm_None _ _ _ P E1) in E2. discriminate.
+Qed.
+
+Record wfs (s : sig) : Prop := {
+  wf_nd_decl : NoDup (Pn s ++ Qn s ++ Kn s);
+  wf_nd_all : NoDup (Pn s ++ Qn s ++ Ksn s);
+  wf_nd_arg : NoDup (Qn s ++ Ksn s);
+  wf_nd_p : NoDup (Qn s ++ Kn s);
+  wf_trail : defaults_trail (positional_args s) = true;
+  wf_used : s_starstar s = true \/ s_kwused s = false
+}.
+
+Lemma NoDup_app_r : forall A (l1 l2 : list A), NoDup (l1 ++ l2) -> NoDup l2.
+Proof. intros A l1; induction l1; simpl; intros l2 H; [exact H|]. inversion H; auto. Qed.
+
+Lemma wf_sig_wfs : forall s, wf_sig s = true -> wfs s.
+Proof.
+  intros s H. unfold wf_sig in H. apply andb_true_iff in H as [H U]. apply andb_true_iff in H as [N T].
+  apply nodupb_NoDup in N. rewrite declnames_eq in N.
+  assert (N2 : NoDup (Pn s ++ Qn s ++ Ksn s)).
+  { eapply Permutation_NoDup; [|exact N]. apply Permutation_app_head, Permutation_app_head, Permutation_sym, Ksn_perm. }
+  constructor; auto.
+  - apply (NoDup_app_r _ _ _ N2).
+  - apply (NoDup_app_r _ _ _ N).
+  - apply orb_true_iff in U as [U|U]; [left; exact U|right; apply negb_true_iff; exact U].
+Qed.
+
+(* ---------- similarity of parser results up to the error kind ---------- *)
+Definition sim {V} (x y : ekind + pstate V) : Prop :=
+  match x, y with
+  | inl e, inl _ => e <> EImpossible
+  | inr a, inr b => a = b
+  | _, _ => False
+  end.
+
+Definition parser_ok (pth : path) : Prop :=
+  forall V (kws : list (key * V)) names first off ignore values kw0,
+    NoDup names -> all_str kws -> keys_nodup kws = true -> first <= length names ->
+    off + length names <= length values ->
+    (forall i, first <= i -> i < length names -> nth (off + i) values None = None) ->
+    (kw0 = None \/ kw0 = Some []) ->
+    sim (parse_keywords pth kws names first off ignore values kw0)
+        (parse_ref kws names first off ignore values kw0).
+
+Lemma sim_refl_ref : forall V (kws : list (key * V)) names first off ignore values kwds2,
+  NoDup names -> all_str kws -> keys_nodup kws = true ->
+  (kwds2 = None \/ kwds2 = Some []) ->
+  sim (parse_ref kws names first off ignore values kwds2) (parse_ref kws names first off ignore values kwds2).
+Proof.
+  intros V kws names first off ignore values kwds2 ND AS KN K0.
+  assert (DJ : forall d, kwds2 = Some d -> forall kv kv', In kv kws -> In kv' d -> key_same (fst kv') (fst kv) = false).
+  { intros d E kv kv' I I'. destruct K0 as [K0|K0]; rewrite K0 in E; [discriminate|]. inversion E; subst. destruct I'. }
+  pose proof (parse_ref_ok V kws names first off ignore values kwds2 ND AS KN DJ) as P.
+  unfold sim. destruct (parse_ref kws names first off ignore values kwds2) as [e|p]; [apply P|reflexivity].
+Qed.
+
+Lemma parser_ok_tuple : forall pth, pth <> PDict -> parser_ok pth.
+Proof.
+  intros pth NE V kws names first off ignore values kw0 ND AS KN _ _ _ K0.
+  assert (E : parse_keywords pth kws names first off ignore values kw0 = parse_tuple kws names first off ignore values kw0)
+    by (destruct pth; try reflexivity; congruence).
+  rewrite E, parse_tuple_ref by assumption. apply sim_refl_ref; assumption.
+Qed.
+
+(* ---------- values of the two arrays after keyword parsing ---------- *)
+Definition dp : param := mkParam 0 false.
+
+Lemma sig_lengths : forall s,
+  length (all_args s) = maxpos s + length (kw_only_args s) /\
+  length (declared s) = maxpos s + length (s_kwonly s) /\
+  maxpos s = npo s + length (s_poskw s) /\
+  length (kw_only_args s) = length (s_kwonly s).
+Proof.
+  intros s. unfold all_args, declared, maxpos, positional_args, npo. rewrite !app_length.
+  pose proof (Permutation_length (kw_perm s)). lia.
+Qed.
+
+Lemma opt_id : forall V (o : option V), match o with Some v => Some v | None => None end = o.
+Proof. destruct o; reflexivity. Qed.
+
+Section Arrays.
+  Variable V : Type.
+  Variable s : sig.
+  Variable pos : list V.
+  Variable kws : list (key * V).
+  Variable k nf : nat.
+  Hypothesis W : wfs s.
+  Hypothesis Hk : k <= length pos /\ k <= maxpos s.
+  Hypothesis Hnf : nf <= length (s_poskw s).
+  Variable values' slots' : list (option V).
+  Hypothesis Lv : length values' = length (all_args s).
+  Hypothesis Ls : length slots' = length (declared s).
+  Hypothesis Nv : forall a, nth a values' None =
+    ref_at (argnames s) nf (npo s) kws (fill_pos (length (all_args s)) k pos) a.
+  Hypothesis Ns : forall a, nth a slots' None =
+    ref_at (Qn s ++ Kn s) nf (npo s) kws (fill_pos (length (declared s)) k pos) a.
+
+  Lemma arr_pos : forall a, a < maxpos s -> nth a values' None = nth a slots' None.
+  Proof.
+    intros a L. rewrite Nv, Ns. unfold ref_at.
+    destruct (sig_lengths s) as [E1 [E2 [E3 E4]]].
+    rewrite !fill_pos_length by lia. rewrite argnames_eq, !app_length. unfold Qn, Kn, Ksn. rewrite !map_length.
+    rewrite !nth_fill_pos.
+    replace (a <? npo s + (length (s_poskw s) + length (kw_only_args s))) with true by (symmetry; apply Nat.ltb_lt; lia).
+    replace (a <? npo s + (length (s_poskw s) + length (s_kwonly s))) with true by (symmetry; apply Nat.ltb_lt; lia).
+    replace (a <? length (all_args s)) with true by (symmetry; apply Nat.ltb_lt; lia).
+    replace (a <? length (declared s)) with true by (symmetry; apply Nat.ltb_lt; lia).
+    destruct (npo s + nf <=? a) eqn:C; simpl; [|reflexivity].
+    apply Nat.leb_le in C.
+    rewrite !app_nth1 by (rewrite map_length; lia). reflexivity.
+  Qed.
+
+  Lemma arr_kw_cy : forall j, j < length (kw_only_args s) ->
+    nth (maxpos s + j) values' None = dict_get (nth j (Ksn s) 0) kws.
+  Proof.
+    intros j L. rewrite Nv. unfold ref_at.
+    destruct (sig_lengths s) as [E1 [E2 [E3 E4]]].
+    rewrite !fill_pos_length by lia. rewrite argnames_eq, !app_length. unfold Qn, Ksn. rewrite !map_length.
+    rewrite nth_fill_pos.
+    replace (npo s + nf <=? maxpos s + j) with true by (symmetry; apply Nat.leb_le; lia).
+    replace (maxpos s + j <? npo s + (length (s_poskw s) + length (kw_only_args s))) with true by (symmetry; apply Nat.ltb_lt; lia).
+    replace (maxpos s + j <? length (all_args s)) with true by (symmetry; apply Nat.ltb_lt; lia).
+    replace (maxpos s + j <? Nat.min k (length pos)) with false by (symmetry; apply Nat.ltb_ge; lia).
+    simpl. rewrite app_nth2 by (rewrite map_length; lia). rewrite map_length.
+    replace (maxpos s + j - npo s - length (s_poskw s)) with j by lia. apply opt_id.
+  Qed.
+
+  Lemma arr_kw_py : forall j, j < length (s_kwonly s) ->
+    nth (maxpos s + j) slots' None = dict_get (nth j (Kn s) 0) kws.
+  Proof.
+    intros j L. rewrite Ns. unfold ref_at.
+    destruct (sig_lengths s) as [E1 [E2 [E3 E4]]].
+    rewrite !fill_pos_length by lia. rewrite !app_length. unfold Qn, Kn. rewrite !map_length.
+    rewrite nth_fill_pos.
+    replace (npo s + nf <=? maxpos s + j) with true by (symmetry; apply Nat.leb_le; lia).
+    replace (maxpos s + j <? npo s + (length (s_poskw s) + length (s_kwonly s))) with true by (symmetry; apply Nat.ltb_lt; lia).
+    replace (maxpos s + j <? length (declared s)) with true by (symmetry; apply Nat.ltb_lt; lia).
+    replace (maxpos s + j <? Nat.min k (length pos)) with false by (symmetry; apply Nat.ltb_ge; lia).
+    simpl. rewrite app_nth2 by (rewrite map_length; lia). rewrite map_length.
+    replace (maxpos s + j - npo s - length (s_poskw s)) with j by lia. apply opt_id.
+  Qed.
+
+  Lemma assoc_combine : forall (names : list nat) (vals : list (option V)) a,
+    NoDup names -> length vals = length names -> a < length names ->
+    assoc (nth a names 0) (combine names vals) = Some (nth a vals None).
+  Proof.
+    unfold assoc. induction names as [|n names IH]; intros vals a ND L La; simpl in La; [lia|].
+    destruct vals as [|v vals]; simpl in L; [lia|]. inversion ND as [|? ? NI ND']; subst.
+    destruct a as [|a]; simpl.
+    - rewrite Nat.eqb_refl. reflexivity.
+    - assert (X : (n =? nth a names 0) = false).
+      { apply Nat.eqb_neq. intros ->. apply NI, nth_In. lia. }
+      rewrite X. apply IH; auto; lia.
+  Qed.
+
+  Lemma kw_name_of : forall j, nth j (Kn s) 0 = p_name (nth j (s_kwonly s) dp).
+  Proof. intros j. unfold Kn. apply (map_nth p_name _ dp). Qed.
+  Lemma kws_name_of : forall j, nth j (Ksn s) 0 = p_name (nth j (kw_only_args s) dp).
+  Proof. intros j. unfold Ksn. apply (map_nth p_name _ dp). Qed.
+
+  Lemma readout_eq : readout_cy s values' = readout_py (declared s) slots'.
+  Proof.
+    unfold readout_cy, readout_py.
+    destruct (sig_lengths s) as [E1 [E2 [E3 E4]]].
+    set (f := fun p : param => (p_name p, to_arg p (assoc (p_name p) (combine (map p_name (all_args s)) values')))).
+    set (g := fun ip : nat * param => (p_name (snd ip), to_arg (snd ip) (Some (nth (fst ip) slots' None)))).
+    apply (nth_ext _ _ (f dp) (g (0, dp))).
+    { rewrite !map_length, combine_length, seq_length. lia. }
+    intros i Li. rewrite map_length in Li.
+    rewrite (map_nth f), (map_nth g), combine_nth by (rewrite seq_length; reflexivity).
+    rewrite seq_nth by exact Li. simpl.
+    unfold f, g. simpl. f_equal. f_equal.
+    assert (NDall : NoDup (map p_name (all_args s))) by (rewrite allnames_eq; apply (wf_nd_all _ W)).
+    assert (Lall : length values' = length (map p_name (all_args s))) by (rewrite map_length; exact Lv).
+    destruct (Nat.lt_ge_cases i (maxpos s)) as [C|C].
+    - assert (Ep : nth i (declared s) dp = nth i (all_args s) dp).
+      { unfold declared, all_args, positional_args. rewrite app_assoc.
+        unfold maxpos, positional_args in C.
+        rewrite (app_nth1 (s_posonly s ++ s_poskw s) (s_kwonly s)) by exact C.
+        rewrite (app_nth1 (s_posonly s ++ s_poskw s) (kw_only_args s)) by exact C. reflexivity. }
+      rewrite Ep. rewrite <- (map_nth p_name (all_args s) dp i). change (p_name dp) with 0.
+      rewrite assoc_combine by (auto; rewrite map_length; lia).
+      rewrite arr_pos by exact C. reflexivity.
+    - set (j := i - maxpos s).
+      assert (Lj : j < length (s_kwonly s)) by (unfold j; lia).
+      assert (Ep : nth i (declared s) dp = nth j (s_kwonly s) dp).
+      { unfold declared. rewrite app_assoc. unfold j, maxpos, positional_args in *.
+        rewrite app_nth2 by exact C. reflexivity. }
+      rewrite Ep.
+      assert (I : In (nth j (s_kwonly s) dp) (kw_only_args s))
+        by (apply (Permutation_in _ (Permutation_sym (kw_perm s))), nth_In; exact Lj).
+      destruct (In_nth _ _ dp I) as [j' [Lj' Ej']].
+      assert (En : p_name (nth j (s_kwonly s) dp) = nth (maxpos s + j') (map p_name (all_args s)) 0).
+      { change 0 with (p_name dp). rewrite map_nth. unfold all_args.
+        rewrite app_nth2 by (unfold maxpos; lia). unfold maxpos.
+        replace (length (positional_args s) + j' - length (positional_args s)) with j' by lia. rewrite Ej'. reflexivity. }
+      rewrite En. rewrite assoc_combine by (auto; rewrite map_length; lia).
+      rewrite arr_kw_cy by exact Lj'. replace i with (maxpos s + j) by (unfold j; lia).
+      rewrite arr_kw_py by exact Lj. rewrite kws_name_of, kw_name_of, Ej'. reflexivity.
+  Qed.
+
+  Lemma existsb_ext_in : forall A (f g : A -> bool) l, (forall x, In x l -> f x = g x) -> existsb f l = existsb g l.
+  Proof.
+    intros A f g l; induction l as [|x l IH]; intros H; simpl; [reflexivity|].
+    rewrite (H x (or_introl eq_refl)), IH; [reflexivity|]. intros y I. apply H. right. exact I.
+  Qed.
+
+  Lemma none_in_pos_eq : forall lo hi, hi <= maxpos s -> none_in values' lo hi = none_in slots' lo hi.
+  Proof.
+    intros lo hi H. unfold none_in. apply existsb_ext_in. intros x I. apply in_seq in I.
+    rewrite arr_pos by lia. reflexivity.
+  Qed.
+
+  Lemma missing_kw_eq :
+    none_in values' (maxpos s) (maxpos s + nreq_kw s) = missing_kwonly (maxpos s) (s_kwonly s) slots'.
+  Proof.
+    destruct (sig_lengths s) as [E1 [E2 [E3 E4]]].
+    set (P := exists p, In p (s_kwonly s) /\ p_def p = false /\ dict_get (p_name p) kws = None).
+    assert (A1 : none_in values' (maxpos s) (maxpos s + nreq_kw s) = true <-> P).
+    { unfold none_in. rewrite existsb_exists. unfold nreq_kw.
+      replace (maxpos s + length (required (s_kwonly s)) - maxpos s) with (length (required (s_kwonly s))) by lia.
+      split.
+      - intros [i [I H]]. apply in_seq in I. set (j := i - maxpos s).
+        assert (Lj : j < length (required (s_kwonly s))) by (unfold j; lia).
+        assert (Lj2 : j < length (kw_only_args s)) by (unfold kw_only_args; rewrite app_length; lia).
+        replace i with (maxpos s + j) in H by (unfold j; lia).
+        rewrite arr_kw_cy, kws_name_of in H by exact Lj2.
+        unfold kw_only_args in H. rewrite app_nth1 in H by exact Lj.
+        pose proof (nth_In (required (s_kwonly s)) dp Lj) as I2. unfold required in I2. apply filter_In in I2 as [I2 D].
+        exists (nth j (required (s_kwonly s)) dp). unfold required. repeat split; auto.
+        + apply negb_true_iff. exact D.
+        + destruct (dict_get _ kws); [discriminate|reflexivity].
+      - intros [p [I [D G]]].
+        assert (I2 : In p (required (s_kwonly s))) by (apply filter_In; split; [exact I|rewrite D; reflexivity]).
+        destruct (In_nth _ _ dp I2) as [j [Lj Ej]].
+        assert (Lj2 : j < length (kw_only_args s)) by (unfold kw_only_args; rewrite app_length; lia).
+        exists (maxpos s + j). split; [apply in_seq; lia|].
+        rewrite arr_kw_cy, kws_name_of by exact Lj2.
+        unfold kw_only_args. rewrite app_nth1 by exact Lj. rewrite Ej, G. reflexivity. }
+    assert (A2 : missing_kwonly (maxpos s) (s_kwonly s) slots' = true <-> P).
+    { unfold missing_kwonly. rewrite existsb_exists. split.
+      - intros [[i p] [I H]]. simpl in H. apply andb_true_iff in H as [D H].
+        destruct (In_nth _ _ (0, dp) I) as [j [Lj Ej]].
+        rewrite combine_length, seq_length, Nat.min_id in Lj.
+        rewrite combine_nth in Ej by (rewrite seq_length; reflexivity).
+        rewrite seq_nth in Ej by exact Lj. inversion Ej; subst i p.
+        rewrite arr_kw_py, kw_name_of in H by exact Lj.
+        exists (nth j (s_kwonly s) dp). repeat split.
+        + apply nth_In. exact Lj.
+        + apply negb_true_iff. exact D.
+        + destruct (dict_get _ kws); [discriminate|reflexivity].
+      - intros [p [I [D G]]]. destruct (In_nth _ _ dp I) as [j [Lj Ej]].
+        exists (maxpos s + j, p). split.
+        + replace (maxpos s + j, p) with (nth j (combine (seq (maxpos s) (length (s_kwonly s))) (s_kwonly s)) (0, dp)).
+          * apply nth_In. rewrite combine_length, seq_length, Nat.min_id. exact Lj.
+          * rewrite combine_nth by (rewrite seq_length; reflexivity). rewrite seq_nth by exact Lj. rewrite Ej. reflexivity.
+        + simpl. rewrite D. simpl. rewrite arr_kw_py, kw_name_of by exact Lj. rewrite Ej, G. reflexivity. }
+    apply eq_iff_eq_true. rewrite A1, A2. reflexivity.
+  Qed.
+End Arrays.
+
+(* ---------- assembling the keyword branch ---------- *)
+Lemma filter_length_le : forall A (f : A -> bool) l, length (filter f l) <= length l.
+Proof. intros A f l; induction l; simpl; [lia|]. destruct (f a); simpl; lia. Qed.
+
+Lemma filter_length_compl : forall A (f : A -> bool) l,
+  length (filter (fun x => negb (f x)) l) + length (filter f l) = length l.
+Proof. intros A f l; induction l; simpl; [lia|]. destruct (f a); simpl; lia. Qed.
+
+Lemma req_counts : forall s,
+  minpos s = nreq_posonly s + length (required (s_poskw s)) /\ nreq_posonly s <= npo s /\
+  maxpos s - length (optional (positional_args s)) = minpos s /\ minpos s <= maxpos s.
+Proof.
+  intros s. unfold minpos, nreq_posonly, npo, maxpos, required, optional, positional_args.
+  pose proof (filter_length_le _ (fun p => negb (p_def p)) (s_posonly s)) as A.
+  pose proof (filter_length_compl _ p_def (s_posonly s)) as C1.
+  pose proof (filter_length_compl _ p_def (s_poskw s)) as C2.
+  rewrite !filter_app, !app_length. lia.
+Qed.
+
+Lemma bad_equiv : forall s nf st k, nf <= length (s_poskw s) ->
+  kw_bad (argnames s) nf st k = kw_bad (Qn s ++ Kn s) nf st k.
+Proof.
+  intros s nf st k L. unfold kw_bad. rewrite argnames_eq.
+  rewrite (kw_dup_app k (Qn s) (Ksn s) (Kn s)) by (unfold Qn; rewrite map_length; exact L).
+  rewrite (kw_unknown_perm k (Qn s) _ _ (Ksn_perm s)). reflexivity.
+Qed.
+
+Lemma parse_ref_nil_off : forall V (kws : list (key * V)) first off off' ignore values kwds2,
+  parse_ref kws [] first off ignore values kwds2 = parse_ref kws [] first off' ignore values kwds2.
+Proof.
+  intros V kws first off off' ignore; induction kws as [|[k v] rest IH]; intros values kwds2; simpl; [reflexivity|].
+  destruct kwds2; [apply IH|]. destruct ignore; [apply IH|reflexivity].
+Qed.
+
+Lemma py_inv_fill : forall V (kws : list (key * V)) names npo0 nq total nargs (pos : list V),
+  nargs = length pos ->
+  py_inv kws names npo0 (Nat.min (nargs - npo0) nq) (fill_pos total (Nat.min nargs (npo0 + nq)) pos).
+Proof.
+  intros V kws names npo0 nq total nargs pos E kv i _ _. rewrite nth_fill_pos.
+  destruct (npo0 + i <? Nat.min (Nat.min nargs (npo0 + nq)) (length pos)) eqn:C.
+  - apply Nat.ltb_lt in C. split; [lia|]. intros _. apply nth_error_Some. lia.
+  - apply Nat.ltb_ge in C. split; [congruence|lia].
+Qed.
+
+Lemma erase_err : forall V s e, e <> EImpossible -> erase s (@TypeErr V e) = OTypeError.
+Proof. intros V s e H. destruct e; try reflexivity. congruence. Qed.
+
+Lemma skipn_min : forall V (pos : list V) mx, skipn (Nat.min (length pos) mx) pos = skipn mx pos.
+Proof.
+  intros V pos mx. destruct (Nat.le_gt_cases (length pos) mx).
+  - rewrite Nat.min_l by lia. rewrite !skipn_all2 by lia. reflexivity.
+  - rewrite Nat.min_r by lia. reflexivity.
+Qed.
+
+Lemma generic_kw : forall V pth s (c : call V),
+  wfs s -> parser_ok pth -> all_str (c_kws c) -> keys_nodup (c_kws c) = true ->
+  (0 <? length (c_kws c)) = true ->
+  erase s (bind_generic pth s c) = erase s (bind_py s c).
+Proof.
+  intros V pth s [pos kws] W PO AS KN NE. simpl in *.
+  destruct (sig_lengths s) as [E1 [E2 [E3 E4]]]. destruct (req_counts s) as [R1 [R2 [R3 R4]]].
+  set (nargs := length pos). set (k := Nat.min nargs (maxpos s)).
+  set (nf := Nat.min (nargs - npo s) (length (s_poskw s))).
+  set (kwdict := if s_starstar s then Some (@nil (key * V)) else None).
+  set (kw0 := if s_starstar s && s_kwused s then Some (@nil (key * V)) else None).
+  (* the CPython side *)
+  assert (PY : py_kw kws (map p_name (declared s)) (npo s) (fill_pos (length (declared s)) k pos) kwdict =
+               parse_ref kws (Qn s ++ Kn s) nf (npo s) false (fill_pos (length (declared s)) k pos) kwdict).
+  { rewrite <- pnames_eq. apply py_kw_ref; auto.
+    - rewrite pnames_eq. apply (wf_nd_p _ W).
+    - rewrite pnames_eq. unfold nf, k. rewrite E3. apply py_inv_fill. reflexivity. }
+  assert (K0 : kwdict = None \/ kwdict = Some []) by (unfold kwdict; destruct (s_starstar s); auto).
+  assert (K0' : kw0 = None \/ kw0 = Some []) by (unfold kw0; destruct (s_starstar s && s_kwused s); auto).
+  assert (DJ : forall d, kwdict = Some d -> forall kv kv' : key * V, In kv kws -> In kv' d -> key_same (fst kv') (fst kv) = false).
+  { intros d E kv kv' I I'. destruct K0 as [K0|K0]; rewrite K0 in E; [discriminate|]. inversion E; subst. destruct I'. }
+  assert (DJ0 : forall d, kw0 = Some d -> forall kv kv' : key * V, In kv kws -> In kv' d -> key_same (fst kv') (fst kv) = false).
+  { intros d E kv kv' I I'. destruct K0' as [K1|K1]; rewrite K1 in E; [discriminate|]. inversion E; subst. destruct I'. }
+  pose proof (parse_ref_ok V kws (Qn s ++ Kn s) nf (npo s) false (fill_pos (length (declared s)) k pos) kwdict
+                (wf_nd_p _ W) AS KN DJ) as PYOK.
+  assert (ST : strict_of (s_starstar s) kw0 = strict_of false kwdict).
+  { unfold kw0, kwdict. destruct (wf_used _ W) as [U|U]; rewrite U; [destruct (s_kwused s)|destruct (s_starstar s)]; reflexivity. }
+  assert (Lnf : nf <= length (s_poskw s)) by (unfold nf; lia).
+  unfold bind_generic, bind_py. simpl c_pos. simpl c_kws. rewrite NE.
+  fold nargs. fold k. replace (Nat.min nargs (maxpos s)) with k by reflexivity. fold kwdict. fold kw0.
+  rewrite PY.
+  destruct (accept_kwd_args s) eqn:ACC; simpl negb; cbv iota.
+  2:{ (* no keyword can be accepted *)
+    rewrite erase_err by (unfold reject_keywords; destruct pth; try discriminate; destruct (nonstr_in kws); discriminate).
+    unfold accept_kwd_args in ACC. apply orb_false_iff in ACC as [A1 A2].
+    apply negb_false_iff, Nat.eqb_eq in A1. rewrite argnames_eq, app_length in A1. unfold Qn, Ksn in A1. rewrite !map_length in A1.
+    assert (EQ : Qn s ++ Kn s = []).
+    { apply length_zero_iff_nil. rewrite app_length. unfold Qn, Kn. rewrite !map_length. lia. }
+    rewrite EQ. unfold kwdict. rewrite A2. destruct kws as [|[k0 v0] rest]; [discriminate|]. simpl. reflexivity. }
+  destruct (posargs_kw s pos) as [values|] eqn:PA.
+  2:{ (* argtuple_error in the switch *)
+    simpl. unfold posargs_kw in PA. fold nargs in PA.
+    destruct (parse_ref kws (Qn s ++ Kn s) nf (npo s) false (fill_pos (length (declared s)) k pos) kwdict) as [e|[slots' kw']].
+    { apply eq_sym, erase_err, PYOK. }
+    destruct PYOK as [_ [Ls [Ns _]]].
+    destruct (maxpos s <? nargs) eqn:C1.
+    - destruct (s_star s); [discriminate|]. reflexivity.
+    - simpl. destruct (nargs <? nreq_posonly s) eqn:C2; [|discriminate].
+      apply Nat.ltb_lt in C2. apply Nat.ltb_ge in C1.
+      assert (X : none_in slots' nargs (maxpos s - length (optional (positional_args s))) = true).
+      { rewrite R3. unfold none_in. apply existsb_exists. exists nargs. split; [apply in_seq; lia|].
+        rewrite Ns. unfold ref_at.
+        replace (npo s + nf <=? nargs) with false by (symmetry; apply Nat.leb_gt; lia). simpl.
+        rewrite nth_fill_pos. replace (nargs <? Nat.min k (length pos)) with false by (symmetry; apply Nat.ltb_ge; unfold nargs; lia).
+        reflexivity. }
+      rewrite X. reflexivity. }
+  (* positional arguments copied; keyword parsing *)
+  assert (VAL : values = fill_pos (length (all_args s)) k pos /\ nreq_posonly s <= nargs /\ ((maxpos s <? nargs) && negb (s_star s) = false)).
+  { unfold posargs_kw in PA. fold nargs in PA. destruct (maxpos s <? nargs) eqn:C1.
+    - destruct (s_star s); [|discriminate]. inversion PA. apply Nat.ltb_lt in C1. unfold k. rewrite Nat.min_r by lia.
+      repeat split; auto; lia.
+    - destruct (nargs <? nreq_posonly s) eqn:C2; [discriminate|]. inversion PA. apply Nat.ltb_ge in C1, C2.
+      unfold k. rewrite Nat.min_l by lia. repeat split; auto. }
+  destruct VAL as [-> [RN TM]]. rewrite TM.
+  set (first := if maxpos s =? 0 then 0 else if s_star s then Nat.min (if 0 <? npo s then nargs - npo s else nargs) (maxpos s - npo s)
+                else if 0 <? npo s then nargs - npo s else nargs).
+  assert (F : first = nf).
+  { unfold first, nf. apply andb_false_iff in TM.
+    destruct (Nat.eqb_spec (maxpos s) 0); [lia|]. destruct (Nat.ltb_spec 0 (npo s)); destruct (s_star s); try lia.
+    - destruct TM as [TM|TM]; [apply Nat.ltb_ge in TM; lia|discriminate].
+    - destruct TM as [TM|TM]; [apply Nat.ltb_ge in TM; lia|discriminate]. }
+  rewrite F.
+  set (off := if (0 <? npo s) && (npo s <? length (all_args s)) then npo s else 0).
+  assert (OFF : off = npo s \/ argnames s = []).
+  { unfold off. destruct (Nat.ltb_spec 0 (npo s)); simpl; [|left; lia].
+    destruct (Nat.ltb_spec (npo s) (length (all_args s))); [left; reflexivity|right].
+    apply length_zero_iff_nil. rewrite argnames_eq, app_length. unfold Qn, Ksn. rewrite !map_length. lia. }
+  assert (Lk : k <= length pos /\ k <= maxpos s) by (unfold k, nargs; lia).
+  assert (NDA : NoDup (argnames s)) by (rewrite argnames_eq; apply (wf_nd_arg _ W)).
+  assert (SIM : sim (parse_keywords pth kws (argnames s) nf off (s_starstar s) (fill_pos (length (all_args s)) k pos) kw0)
+                    (parse_ref kws (argnames s) nf (npo s) (s_starstar s) (fill_pos (length (all_args s)) k pos) kw0)).
+  { assert (S0 : sim (parse_keywords pth kws (argnames s) nf off (s_starstar s) (fill_pos (length (all_args s)) k pos) kw0)
+                     (parse_ref kws (argnames s) nf off (s_starstar s) (fill_pos (length (all_args s)) k pos) kw0)).
+    { apply PO; auto.
+      - rewrite argnames_eq, app_length. unfold Qn. rewrite map_length. lia.
+      - rewrite fill_pos_length by lia. destruct OFF as [O|O].
+        + rewrite O, argnames_eq, app_length. unfold Qn, Ksn. rewrite !map_length. lia.
+        + rewrite O. simpl. unfold off. destruct (_ && _); lia.
+      - intros i L1 L2. rewrite nth_fill_pos.
+        destruct OFF as [O|O]; [|rewrite O in L2; simpl in L2; lia]. rewrite O.
+        replace (npo s + i <? Nat.min k (length pos)) with false; [reflexivity|].
+        symmetry. apply Nat.ltb_ge. unfold k, nf, nargs in *. lia. }
+    destruct OFF as [<-|O]; [exact S0|]. rewrite O in *. rewrite (parse_ref_nil_off _ _ _ (npo s) off). exact S0. }
+  pose proof (parse_ref_ok V kws (argnames s) nf (npo s) (s_starstar s) (fill_pos (length (all_args s)) k pos) kw0
+                NDA AS KN DJ0) as CYOK.
+  assert (BE : existsb (fun kv : key * V => kw_bad (argnames s) nf (strict_of (s_starstar s) kw0) (fst kv)) kws =
+               existsb (fun kv : key * V => kw_bad (Qn s ++ Kn s) nf (strict_of false kwdict) (fst kv)) kws).
+  { apply existsb_ext_in. intros kv _. rewrite ST. apply bad_equiv. exact Lnf. }
+  unfold sim in SIM.
+  destruct (parse_keywords pth kws (argnames s) nf off (s_starstar s) (fill_pos (length (all_args s)) k pos) kw0) as [e|[values' kwds2]];
+  destruct (parse_ref kws (argnames s) nf (npo s) (s_starstar s) (fill_pos (length (all_args s)) k pos) kw0) as [e'|[values2 kwds2']];
+  try contradiction.
+  - (* both raise *)
+    rewrite erase_err by exact SIM. destruct CYOK as [_ B]. rewrite BE in B.
+    destruct (parse_ref kws (Qn s ++ Kn s) nf (npo s) false (fill_pos (length (declared s)) k pos) kwdict) as [e2|[slots' kw']].
+    + apply eq_sym, erase_err, PYOK.
+    + destruct PYOK as [B' _]. congruence.
+  - inversion SIM; subst values2 kwds2'. destruct CYOK as [B [Lv [Nv Kv]]]. rewrite BE in B.
+    destruct (parse_ref kws (Qn s ++ Kn s) nf (npo s) false (fill_pos (length (declared s)) k pos) kwdict) as [e2|[slots' kw']].
+    { destruct PYOK as [_ B']. congruence. }
+    destruct PYOK as [_ [Ls [Ns Ks]]].
+    rewrite fill_pos_length in Lv, Ls by lia.
+    rewrite R3.
+    rewrite (none_in_pos_eq V s pos kws k nf W Lk Lnf values' slots' Lv Ls Nv Ns) by lia.
+    rewrite (missing_kw_eq V s pos kws k nf W Lk Lnf values' slots' Lv Ls Nv Ns).
+    assert (G : (nreq_posonly s <? minpos s) && none_in slots' nargs (minpos s) = none_in slots' nargs (minpos s)).
+    { destruct (Nat.ltb_spec (nreq_posonly s) (minpos s)); [reflexivity|]. simpl. unfold none_in.
+      replace (minpos s - nargs) with 0 by lia. reflexivity. }
+    rewrite G.
+    destruct (none_in slots' nargs (minpos s)); [reflexivity|].
+    destruct (missing_kwonly (maxpos s) (s_kwonly s) slots'); [reflexivity|].
+    simpl. rewrite (readout_eq V s pos kws k nf W Lk Lnf values' slots' Lv Ls Nv Ns).
+    unfold k, nargs. rewrite skipn_min. f_equal.
+    destruct (s_starstar s && negb (s_kwused s)) eqn:U; [reflexivity|].
+    rewrite Kv, Ks. unfold kw0, kwdict. destruct (s_starstar s) eqn:SS; simpl in *; [|reflexivity].
+    apply negb_false_iff in U. rewrite U. simpl. f_equal. apply filter_ext. intros kv.
+    rewrite argnames_eq. apply kw_unknown_perm, Ksn_perm.
+Qed.
